@@ -5,6 +5,7 @@ pub mod c03;
 pub mod c04;
 pub mod c10;
 pub mod c11;
+pub mod c12;
 pub mod c17;
 pub mod c18;
 pub mod c19;
@@ -23,6 +24,7 @@ pub fn registry() -> Vec<PropEntry> {
         PropEntry { meta: &c04::META, check: c04::check, replay: c04::replay },
         PropEntry { meta: &c10::META, check: c10::check, replay: c10::replay },
         PropEntry { meta: &c11::META, check: c11::check, replay: c11::replay },
+        PropEntry { meta: &c12::META, check: c12::check, replay: c12::replay },
         PropEntry { meta: &c17::META, check: c17::check, replay: c17::replay },
         PropEntry { meta: &c18::META, check: c18::check, replay: c18::replay },
         PropEntry { meta: &c19::META, check: c19::check, replay: c19::replay },
